@@ -82,6 +82,12 @@ def main():
                 b = hx(r["bytes"])
                 ok = (S.dec_sc(b) is not None) if r["kind"] == "scalar" else (S.dec_el(b) is not None)
                 out.append({"accept": bool(ok)})
+            elif t == "taproot":
+                # BIP-341: output key of (internal key, merkle root) and BIP-340 verification under it
+                internal = hx(r["internal"])
+                root = hx(r["root"]) if r.get("root") is not None else None
+                q = fr.bip341_output_key(internal[1:] if len(internal) == 33 else internal, root)
+                out.append({"valid": bool(q is not None and fr.bip340_verify(q[0], hx(r["msg"]), hx(r["sig"]))), "output_key": q[0].hex() if q else None})
             elif t == "selftest":
                 out.append({"ok": True, "values": fr.selftest()})
             else:
